@@ -196,6 +196,27 @@ def respace(rng, text):
     return ''.join(out)
 
 
+def escape_solidus(rng, text):
+    """write some of the solidus characters inside the strings of a JSON text as the escape \\/ (same meaning)"""
+    out, in_str, esc = [], False, False
+    for ch in text:
+        if in_str:
+            if esc:
+                esc = False
+            elif ch == '\\':
+                esc = True
+            elif ch == '"':
+                in_str = False
+            elif ch == '/' and rng.random() < 0.5:
+                out.append('\\')
+            out.append(ch)
+            continue
+        if ch == '"':
+            in_str = True
+        out.append(ch)
+    return ''.join(out)
+
+
 def run(chk):
     import xml.etree.ElementTree as ET
     from elementpath import select, ElementPathError, XPathContext
@@ -311,6 +332,42 @@ def run(chk):
         if not same(v, got):
             chk.violation('impl-vs-spec', desc, {'xml-to-json(json-to-xml(t))': ascii(o[1])[:300], 'denotes': ascii(got)[:200]})
         chk.nontrivial.add('jx' + ascii(v))
+
+    # ---------------- 2b. the same round trip with the option escape=true (json-to-xml keeps the escapes and marks strings and
+    # keys with escaped / escaped-key, xml-to-json must copy them): every character, solidus written as \\/ at random
+    evals = [gen_value(rng, rng.choice([1, 2, 3])) for _ in range(100 if quick else 4000)]
+    evals += [{'__obj__': [('\\', 1)]}, {'__obj__': [('a\nb', None), ('c"d', True), ('/', [])]}, 'A/', '\\/', '\x00\x1f', {'__obj__': [('k/\\', {'__obj__': [('\t', 'v/')]})]}]
+    pm = core.run_coq_cases('C17', IMPORTS, [f'run_print {to_coq(v)}' for v in evals], chunk=80, tag='jxe') if model_ok else [None] * len(evals)
+    outs = []
+    for v, printed in zip(evals, pm):
+        if printed is None:
+            outs.append(None)
+            continue
+        ctext = escape_solidus(rng, respace(rng, ''.join(map(chr, printed))))
+        try:
+            outs.append((ctext, xp('xml-to-json(json-to-xml($t, map{"escape":true()}))', t=ctext)))
+        except ElementPathError as ex:
+            outs.append((ctext, ('err', str(ex))))
+    idx = [i for i, o in enumerate(outs) if o is not None and isinstance(o[1], str)]
+    back = core.run_coq_cases('C17', IMPORTS, [f'run_parse {core.zlist([ord(c) for c in outs[i][1]])}' for i in idx], chunk=80, tag='jxeb') if model_ok else []
+    backmap = dict(zip(idx, back))
+    for i, (v, o) in enumerate(zip(evals, outs)):
+        chk.evaluations += 1
+        chk.count('json-to-xml-to-json:escape')
+        if o is None:
+            continue
+        desc = {'json text': ascii(o[0])[:300], 'options': 'escape=true'}
+        if not isinstance(o[1], str):
+            chk.violation('impl-vs-spec', desc, 'raised ' + o[1][1][:200])
+            continue
+        parsed = backmap.get(i)
+        if parsed is None or parsed[0] != 1:
+            chk.violation('impl-vs-spec', desc, {'xml-to-json output is not JSON': ascii(o[1])[:300]})
+            continue
+        got, _ = unflat(parsed, 1)
+        if not same(v, got):
+            chk.violation('impl-vs-spec', desc, {'xml-to-json(json-to-xml(t, escape))': ascii(o[1])[:300], 'denotes': ascii(got)[:200]})
+        chk.nontrivial.add('jxe' + ascii(v))
 
     # ---------------- 3. parse-xml(serialize(node)) = node
     tlist = []
